@@ -30,7 +30,8 @@ ENTRY = dict(
             "one per `timeout` interval": "theorem (tx_spacing, tx_spacing_exact)",
             "each followed by a re-read request iff versions are not tracked": "theorem (refresh_per_attempt; refresh_iff_tracked, refresh_iff_untracked for a constant flag)",
             "the set request addresses the parameter it was called on (index, sub-device, thermostat offset, schedule number)": "correspondence (asserted by the rig on 20 parameter addresses)",
-            "set(<display value>) transmits toRaw(display value)": "correspondence with the C17/C06 model's toRaw (display sweep over every scaled row)",
+            "the call acts on the parameter the client holds: object kept across later reports, object fetched right before the call, Device.set by name": "correspondence (three routes, identical expectation; the object in device.data must stay the kept one)",
+            "set(<display value>) transmits toRaw(display value)": "correspondence with the C17/C06 model's toRaw (display sweep over every scaled row, also with the held raw number equal to the requested display number, through Parameter.set and Device.set)",
             "returns True only after a report with a value different from the previous one": "theorem (true_sound)",
             "returns False only after `retries` unconfirmed transmissions": "theorem (false_sound)",
             "every interleaving of stale / confirming / unrelated reports with the retry timer": "theorem (histories are universally quantified); model <-> code by correspondence",
